@@ -1,6 +1,7 @@
 package serial
 
 import (
+	"os"
 	"bytes"
 	"fmt"
 	"io"
@@ -134,6 +135,48 @@ func TestWriteFault(t *testing.T) {
 						c.Violation("count-mismatch", in.name, "returned count %d, destination accepted %d (fail at %d, short=%v)", in.count(), len(sw.Accepted), k, short)
 					}
 				}
+			}
+			// the same artifact into a REAL file on a disk that fills up after k bytes (the
+			// kernel enforces the quota): for serializers that treat *os.File specially
+			if in.run != nil && c.Chance("realFile", 1, 3) {
+				nq := 4
+				for i := 0; i < nq; i++ {
+					k := c.Int("realFile.k", 0, len(full))
+					if i == 0 {
+						k = c.PickInt("realFile.k0", 0, len(full)-1, len(full))
+					}
+					if k < 0 {
+						k = 0
+					}
+					var rerr error
+					var pi *core.PanicInfo
+					acc, ferr := c.WithQuotaFile(k, func(f *os.File) {
+						pi = c.Guard(in.name, func() { rerr = in.run(f) })
+					})
+					if ferr != nil {
+						c.Event("quota file unavailable: %v", ferr)
+						break
+					}
+					if pi != nil {
+						c.CheckTotal(in.name, 0, pi, 0)
+					}
+					if !c.Oracle("C19") {
+						continue
+					}
+					if k < len(full) && rerr == nil {
+						c.Violation("write-failure-swallowed", in.name+"/real-file", "a real file on a disk full after %d of %d bytes: serializer returned nil", k, len(full))
+					}
+					if !bytes.HasPrefix(full, acc) {
+						c.Violation("not-a-prefix", in.name+"/real-file", "the file holds %d bytes that are not a prefix of the fault-free output (disk full after %d)", len(acc), k)
+					}
+					if k >= len(full) && (rerr != nil || !bytes.Equal(acc, full)) {
+						c.Violation("control-failed", in.name+"/real-file", "no-fault control into a real file failed: %v (%d of %d bytes)", rerr, len(acc), len(full))
+					}
+					if in.count != nil && in.count() != int64(len(acc)) {
+						c.Violation("count-mismatch", in.name+"/real-file", "returned count %d, the file holds %d bytes (disk full after %d)", in.count(), len(acc), k)
+					}
+				}
+				c.Probe("real file destination under a size quota")
 			}
 			if len(full) <= limit {
 				core.ExhaustiveDone("C19: every failure position k in [0,len] x {error, short write, one-shot failure} for one artifact", 1)
